@@ -148,6 +148,19 @@ def corpus():
             ["PTuple", [["PInt", 1], ["PInt", 2]]], ["PInt", 1], ["PTuple", [["PNpInt", 15, 1], ["PIntSub", 3], ["PNone"]]],
             ["PTuple", [S("a"), ["PInt", 2], ["PInt", 5]]], ["PNone"])
         one(["DTuple", [["DFloat"], ["DFloat"]], "Validated", fv], ["PTuple", [["PInt", 1], ["PInt", 2]]], how="Ctor")
+    # x = PrototypedFrom('parent'): the assignment is validated by the PARENT's trait (setattr_delegate -> setattr_trait with
+    # traitd = the parent's trait) and stored on the delegating object
+    dvals = [["PInt", 3], ["PInt", 1000], S("42"), ["PFloat", F(0.5)], ["PBool", True], ["PNone"], ["PIntSub", 3], S("a"),
+             ["PTuple", [["PInt", 1], ["PInt", 2]]], ["PNpInt", 15, 1], ["PInt", -1], ["PFloat", pv.NAN], ["PUndefined"],
+             ["PIndexObj", ["Raises", "EValueError"]], ["PTupleSub", [["PInt", 1], ["PInt", 2]]]]
+    for d in (["DRangeI", 0, 150, 0], ["DFloat"], ["DEnum", [["PInt", 1], S("a")]], ["DTuple", [["DFloat"], ["DFloat"]]], ["DInt"],
+              ["DRangeF", F(0.0), F(1.0), 1], ["DCast", "CTInt"], ["DString", 1, 3, None], ["DInstance", 100, False, False],
+              ["DCompound", [["DInt"], ["DStr"]]], ["DUnion", [["DFloat"], ["DStr"]]], ["DList", ["DInt"], 0, 2]):
+        for how in ("Attr", "TraitSet", "Ctor", "TraitSetQ"):
+            cs.append(dict(traits=[[0, d, "prototyped"], [1, ["DInt"]]], ops=[[how, [[0, v]]] for v in dvals]))
+    # Map on a dict that grows after the trait was defined: the new key is valid and gets its shadow
+    for gm in pv.GROWN_MAPS:
+        one(gm, S("blue"), S("a"), ["PNone"], ["PInt", 5], S("yes"), S("zz"), ["PInt", 1])
     # settable validated Property(<trait>): the SETTER must receive the validated value (the Python validate is used:
     # configurations and values on which it coincides with the compiled one)
     pvals = [["PInt", 3], S("42"), S("n"), S("no"), ["PTuple", [["PInt", 1], ["PInt", 2]]], ["PFloat", F(0.5)], ["PBool", True],
